@@ -2678,5 +2678,22 @@ func (s *ScopedKeyManager) cloneKeyWithVersion(key *hdkeychain.ExtendedKey) (
 func (s *ScopedKeyManager) InvalidateAccountCache(account uint32) {
 	s.mtx.Lock()
 	defer s.mtx.Unlock()
+
+	// The cached account of an unlocked manager may hold clear-text
+	// private keys: the account's own and those of its last address
+	// objects, which are not necessarily the ones held in the address
+	// cache. Once dropped from the cache, Lock no longer finds them, so
+	// they have to be cleared here.
+	if acctInfo, ok := s.acctInfo[account]; ok {
+		if acctInfo.acctKeyPriv != nil {
+			acctInfo.acctKeyPriv.Zero()
+		}
+		if a, ok := acctInfo.lastExternalAddr.(*managedAddress); ok {
+			a.lock()
+		}
+		if a, ok := acctInfo.lastInternalAddr.(*managedAddress); ok {
+			a.lock()
+		}
+	}
 	delete(s.acctInfo, account)
 }
